@@ -217,6 +217,40 @@ pub fn run_c07(ctx: &mut Ctx) {
     or.write(&ctx.dir);
 }
 
+// =====================================================================================================  C13: the permit lives as long as the connection
+/// Connections like C07's, run with a saturated semaphore (`gt=1`): after every poll of the task that returned Pending a
+/// fresh `get_token()` is polled once.  Oracle: no probe is Ready before the task is gone; the one after it is.
+pub fn c13_conn(ctx: &mut Ctx, log: &mut Log, im: &mut Impl, or: &mut Oracle) {
+    let mut rng = ctx.rng.fork();
+    for ci in 0..ctx.n(250, 5000) {
+        let k = 1 + rng.usize_below(3);
+        let mc = 1 + rng.usize_below(4);
+        let b = *rng.pick(&[64usize, 128, 1024, 8192]);
+        let nl = rng.below(4);
+        let plans: Vec<ReqPlan> = (0..k).map(|i| { let keep = i + 1 < k || rng.chance(1, 3); gen_req(&mut rng, keep, nl, mc, b, true) }).collect();
+        let end = if rng.chance(1, 2) { "eof" } else { "pend" };
+        // many Pending answers on the write side: close() and the stream writers span several polls
+        let op = format!("{} gt=1", conn_op(&plans, b, mc, end, &rd_script(&mut rng, 40), &wr_script(&mut rng, 60, false), &fl_script(&mut rng), "none", true));
+        log.case(&format!("c13-conn-{ci}"));
+        let o = ex(log, im, &op);
+        let tr = parse_trace(&o);
+        let probes: Vec<(usize, &String)> = tr.events.iter().enumerate().filter(|(_, e)| e.starts_with("G:")).collect();
+        let n = probes.len();
+        for (j, (at, e)) in probes.iter().enumerate() {
+            let last = j + 1 == n;
+            if !last && e.as_str() == "G:R" {
+                let nhs = tr.events[..*at].iter().filter(|e| e.starts_with("HS(")).count(); let nhe = tr.events[..*at].iter().filter(|e| e.starts_with("HE(")).count();
+                or.fail(format!("max_conns = {mc} and all permits taken, yet get_token() completed while the connection task was still running (probe {j} of {n}; {nhs} handler start(s), {nhe} handler return(s) so far)"), log.replay_block(), "C13:permit-released-early".into());
+                break;
+            }
+            if last && e.as_str() != "G:R" { or.fail("the connection task is gone but its permit was not returned: get_token() still pending".into(), log.replay_block(), "C13:permit-not-returned".into()); }
+        }
+        if n == 0 { or.fail("no get_token probe in the trace".into(), log.replay_block(), "C13:no-probe".into()); }
+        or.count(&format!("conn_probes={}", if n <= 2 { "1-2" } else if n <= 6 { "3-6" } else { "7+" }));
+        or.eval(("conn", ci), n >= 2);
+    }
+}
+
 // =====================================================================================================  C08
 pub fn run_c08(ctx: &mut Ctx) {
     let mut log = Log::new(&ctx.dir);
